@@ -1,0 +1,16 @@
+//go:build verif
+
+package v2
+
+import "github.com/ipfs/go-graphsync/message"
+
+// gsvRoundTrip exists only under the verif build tag. It is the composition "encode to the wire structure,
+// then decode it again" of the two real mapping functions; its contract (zz_contracts_verif.go) is the
+// round-trip lemma of property C11, checked by /verif/bin/gsv against the contracts of toIPLD and fromIPLD.
+func gsvRoundTrip(mh *MessageHandler, gsm message.GraphSyncMessage) (message.GraphSyncMessage, error) {
+	ibm, err := mh.toIPLD(gsm)
+	if err != nil {
+		return message.GraphSyncMessage{}, err
+	}
+	return mh.fromIPLD(ibm)
+}
